@@ -430,7 +430,27 @@ def cmp_window(prop, case, impl, model):
         return [('disagree', 'window:array-differs', 'after op %d (%s): library %s, model %s' % (k, op, a, b))]
     return []
 
+def cmp_hs_pair(prop, case, impl, model):
+    if 'PANIC' in impl:
+        return [('violation', 'hs-pair:panic', impl['PANIC'][:300])]
+    if 'modelerror' in model:
+        return [('disagree', 'hs-pair:setup', str(model.get('modelerror'))[:300])]
+    for f in ('ok', 'accepted', 'csub', 'ssub', 'cco', 'sco'):
+        if impl.get(f) != model.get(f):
+            kind = 'violation'
+            what = {'ok': 'the library client and the library server did not complete the handshake as specified',
+                    'accepted': 'the server side of the handshake differs',
+                    'csub': 'the subprotocol the client reports differs', 'ssub': 'the subprotocol the server reports differs',
+                    'cco': 'the compression parameters the client holds differ', 'sco': 'the compression parameters the server holds differ'}[f]
+            if f in ('cco', 'sco') and prop != 'C14':
+                kind = 'disagree'
+            return [(kind, 'hs-pair:' + f, '%s: library %s, specification %s' % (what, impl.get(f), model.get(f)))]
+    if impl.get('ok') == '1' and impl.get('cco') != impl.get('sco'):
+        return [('violation', 'hs-pair:ends-disagree', 'client holds %s, server holds %s' % (impl.get('cco'), impl.get('sco')))]
+    return []
+
 COMPARE = {
+    'hs-pair': cmp_hs_pair,
     'window': cmp_window,
     'pools': cmp_pools,
     'life': cmp_life,
@@ -455,7 +475,7 @@ def nontrivial(suite, case, impl):
         return n >= 4
     if suite == 'wire-in':
         return case.get('ops', '').count('R') > 1 and len(case.get('stream', '')) > 16
-    if suite in ('pair', 'hs-accept', 'hs-dial', 'sched', 'wsjson', 'life', 'ping'):
+    if suite in ('pair', 'hs-accept', 'hs-dial', 'hs-pair', 'sched', 'wsjson', 'life', 'ping'):
         return True
     if suite == 'pools':
         return case.get('hist', '').count('msg:') >= 2
@@ -581,21 +601,24 @@ PROPS = {
         technique='Coq proofs over Gallina models of url.Parse/filepath.Match/authenticateOrigin + differential run through the real Accept',
     ),
     'C13': dict(
-        suites=['hs-dial'],
-        rule='hs-dial suite: the real Dial with a scripted RoundTripper: status codes x Connection/Upgrade values x accept-key variants (correct, for another key, missing, upper-cased, empty, doubled) x '
+        suites=['hs-dial', 'hs-pair'],
+        rule='hs-pair suite: the real Dial against the real Accept over an in-memory transport (client subprotocol lists: clean names, and names with commas / spaces / empty; server lists; 3x3 compression modes; origin '
+             'patterns on the server) compared with the composition of Model/HsCompose.v. hs-dial suite: the real Dial with a scripted RoundTripper: status codes x Connection/Upgrade values x accept-key variants (correct, for another key, missing, upper-cased, empty, doubled) x '
              'subprotocol values x requested lists x extension responses x 3 client modes x caller headers (incl. attempts to override the reserved ones) x Host override; the request Dial built is inspected. '
              'non-trivial = every case',
         trusted=COMMON_TRUSTED + HS_TRUST, assumptions=['"fresh random key per attempt" is crypto/rand: the harness checks one base64 value of 16 bytes per dial (a test of the wiring, not of randomness)', 'http.Client redirect/proxy behaviour is outside the model'],
         level_text='Theorems: the request carries exactly the mandated header values (and the joined subprotocols / the extension offer of the mode); a connection is returned iff status 101, upgrade tokens, '
-                   'the accept value for the key sent, an asked-for subprotocol (or none) and honourable extensions. Tie: result, subprotocol, negotiated options and the full request header set equal the model\'s.',
+                   'the accept value for the key sent, an asked-for subprotocol (or none) and honourable extensions. Tie: result, subprotocol, negotiated options and the full request header set equal the model\'s. '
+                   'Composition (C13_lib_lib_handshake): for every client configuration with clean subprotocol names, every 16-byte nonce, every Host and every server configuration, the library server upgrades the library '
+                   'client\'s request and the client accepts the answer, ending with exactly the compression parameters the server holds; the announced subprotocol is one the client asked for.',
         level_note='decision fully modelled; "no connection on error" is observed (ok=2 never) not proved (it is about Go return values).',
         technique='Coq proofs over a Gallina model of dial.go + differential run through the real Dial',
     ),
     'C14': dict(
-        suites=['hs-accept', 'hs-dial', 'pair'],
+        suites=['hs-accept', 'hs-dial', 'pair', 'hs-pair'],
         rule='hs-accept (all extension-offer lists up to 3 offers from a 29-offer grammar incl. window-bits with/without values 7,8,15,16,abc,empty,08, duplicates, unknown parameters, other extensions, '
              'case/spacing variants x 3 modes), hs-dial (22 responses x 3 modes) and the pair suite (every successful library-library handshake is followed by a multi-message compressed exchange in both '
-             'directions). non-trivial = every case',
+             'directions); hs-pair: the real Dial against the real Accept, both ends must hold the same parameters, those of the composed model. non-trivial = every case',
         trusted=COMMON_TRUSTED + HS_TRUST + [FLATE_ASSUME], assumptions=[FLATE_ASSUME],
         level_text='Theorems: the server accepts only the first acceptable offer (no duplicates, only honourable parameters), falls back otherwise, echoes server_no_context_takeover when asked, renders a response '
                    'with nothing but the agreed flags; the client accepts only what it can honour and follows the RESPONSE for the server direction; library-library agreement for all 3x3 modes; per-direction '
